@@ -216,6 +216,11 @@ pub fn draw_top(rng: &mut Rng, tier: Tier, kind: usize) -> TOp {
         }
         1 => TOp::ListComplete { order: draw_order_tail(rng, max).min(400) },
         2 => TOp::ListDegreeSequence { d: draw_dg(rng, max) },
+        3 if rng.chance(1, 250) => {
+            // giant and dense: one flag access per vertex pair, ~10^5..10^6 scheduling points
+            let order = *rng.pick(&[513, 769, 1025, 1025, 1030, 1100]);
+            TOp::ListIsSemicompleteDense { order, seed: rng.next_u64() }
+        }
         3 => {
             let n = draw_order_tail(rng, max).min(260);
             let d = match rng.below(6) {
@@ -374,7 +379,17 @@ impl Lane for C17 {
         let kind = rng.below(8);
         let op = draw_top(rng, tier, kind);
         let mut confs = draw_confs(rng, tier, op.rows());
-        if op.rows() > 400 {
+        if matches!(op, TOp::ListIsSemicompleteDense { .. }) {
+            // 2 CPUs, the machine's 16, and one drawn configuration
+            let drawn = confs[rng.below(confs.len())].clone();
+            let mut two = drawn.clone();
+            two.cpu = Some(2);
+            two.sched.seed ^= 1;
+            let mut sixteen = drawn.clone();
+            sixteen.cpu = Some(16);
+            sixteen.sched.seed ^= 2;
+            confs = vec![two, sixteen, drawn];
+        } else if op.rows() > 400 {
             confs = confs.into_iter().step_by(5).collect();
         } else if op.rows() > 100 {
             // large inputs are there for size thresholds, not for schedule variety: every third configuration
